@@ -26,7 +26,10 @@ KFL_TB = [
     "float64 stands for exact decimals with <= 15 significant digits; regexp modelled for a literal/./*/+/?/^/$ subset",
     "time helpers, datetime() and xml() are outside the model (covered by the no-crash family only)",
 ]
-KFL_RULE = ("type-directed random queries (all operators, literals incl. 1234567 / 1000000 / decimals, paths present and "
+KFL_RULE = ("a coherence block - every comparison operator between a path (plain, nested, c.*, arr.*.x) and each of 10 numbers "
+            "(5 ... 2^24+1, 2^32+1, 2^53-1, 0.1, 0.1000000001) in both orders, the record holding that number as integer / "
+            "float / numeric string or its neighbours -, then, with records biased towards the numeric literals of the query, "
+            "type-directed random queries (all operators, literals incl. 1234567 / 1000000 / decimals, paths present and "
             "absent, index / key / wildcard / descent selectors, helpers well- and ill-typed, json() selectors plain and "
             "base64, nested parentheses, unary operators) x records in which every field is independently present and "
             "of varying type; the generator's syntax tree must equal the real parser's; ")
@@ -36,7 +39,8 @@ PROPS = {
         proof_modules=["KsVerif.Proofs.C11"],
         families=["stages.redis", "stages.amqp", "stages.http", "stages.dns"],
         rule="stages.<proto>: the conversations of redis.conv, amqp.conv (every method, tables holding every field type, "
-             "contents) and http.conv (1-4 exchanges, bodies across 4096 / 8192, chunked / fixed / close-delimited) are "
+             "contents) and http.conv (1-4 exchanges, bodies across 4096 / 8192, chunked / fixed / close-delimited; for stages.http also "
+             "request targets without a path: absolute-form without one, authority-form CONNECT, OPTIONS *) are "
              "dissected by the real code; every emitted item is marshalled to JSON and back, analysed, the entry "
              "marshalled and back, summarised and represented; DNS entries with every record type, 0-2 questions and "
              "0-2 records per section go through the same stages; panic / error / well-formedness of the representation "
@@ -69,7 +73,8 @@ PROPS = {
         proof_modules=["KsVerif.Proofs.C13"],
         families=["kfl.fuzz"],
         facts=[],
-        rule="kfl.fuzz: fixed corpus of historically crashing queries; every helper x 0..3 arguments x 12 argument kinds as "
+        rule="kfl.fuzz: fixed corpus of historically crashing queries (incl. regexp literals that do not compile, compared in "
+             "non-final position so that a later operand clears the compile error); every helper x 0..3 arguments x 12 argument kinds as "
              "function, method, inside json() and xml(); random chains of json()/xml()/index/key/descent selectors; nesting "
              "depth 10..5000; random bytes and token soup; each against a record with embedded JSON / XML / base64 / "
              "garbage and against a random record (incl. malformed); Validate, PrepareQuery, Eval, Apply; "
@@ -125,13 +130,17 @@ PROPS = {
     ),
     "C01": dict(
         proof_modules=["KsVerif.Proofs.C01"],
-        families=["redis.raw", "amqp.raw", "kafka.raw"],
+        families=["redis.raw", "amqp.raw", "kafka.raw", "http2.raw"],
         rule="amqp.raw: corpus of frames with lengths far beyond the data, negative lengths, bad frame types and "
              "end octets (each with every two-piece split and both stream ends), every prefix of well-formed halves, "
              "byte corruptions with boundary values, random bytes, random splits; redis.raw: fixed corpus of inputs that historically broke the reader (each with every two-piece split, "
              "EOF and reader-error tails), plus seeded: every prefix of well-formed halves, 1-3 byte corruptions with "
              "boundary values, random bytes, random multi-piece splits; non-trivial = at least 2 bytes; "
-             "kafka.raw: kafka-go-encoded conversations with 0-3 mutations (see C06), relabelled versions, random bytes",
+             "kafka.raw: kafka-go-encoded conversations with 0-3 mutations (see C06), relabelled versions, random bytes; "
+             "http2.raw: frame scripts no peer would send but x/net/http2's Framer delivers: DATA before or without HEADERS, "
+             "frames after END_STREAM, bodies of 2^20-1, 2^20, 2^20+1 and 2^21+1 bytes in one DATA frame or in 16 KiB frames, "
+             "followed by 0, 1 or 10 more bytes, with and without headers, on either half, plus random scripts over three "
+             "streams - the assembler model must predict items, lengths and leftovers, and nothing may panic",
         trusted_base=REDIS_TB + LIB,
         assumptions=["HTTP: the parser is net/http (library code); its malformed-input behaviour is not modelled"],
     ),
@@ -140,7 +149,8 @@ PROPS = {
         families=["cost.redis", "cost.amqp", "cost.kafka", "cost.http"],
         rule="cost.<proto>: for each dissector, well-formed halves in which one length / count / size field (RESP *N and "
              "$N; AMQP frame, long-string, table, array, byte-array and body sizes; Kafka message size, client-id and "
-             "string lengths, array count; HTTP Content-Length, chunk size, HTTP/2 DATA and HEADERS frame lengths) is "
+             "string lengths, array count, and in a Produce v3 record batch the record count, record-set size, record header "
+             "count, key length and header-key length (varints); HTTP Content-Length, chunk size, HTTP/2 DATA and HEADERS frame lengths) is "
              "replaced by each of 15 boundary values (0, 1, remaining-1, remaining, remaining+1, 65535, 65536, the caps "
              "and cap+1, 30000000, INT32_MAX, -1, UINT32_MAX), each ended by a clean end of stream, by one read error, "
              "and by a reader that fails forever; plus well-formed streams of 1..1000 (50000) messages; the real Dissect "
@@ -186,7 +196,9 @@ PROPS = {
              "boundary-valued arguments (empty / 255-byte short strings, all bit combinations, tables holding every "
              "field type incl. nested tables and arrays), request / -ok pairs, then seeded well-formed conversations: "
              "publish / deliver with every property-flag subset and bodies of 0..2000 bytes in 0..2 frames, several "
-             "channels, heartbeats, unsupported methods interspersed, the connection handshake; non-trivial = at least one frame",
+             "channels, heartbeats, unsupported methods interspersed - incl. the content-bearing ones the dissector does not "
+             "report (basic.return, basic.get-ok) with header and body frames right after a reported content -, the connection "
+             "handshake; non-trivial = at least one frame",
         trusted_base=["Amqp/Model.lean + Dissect.lean: hand-written model of read.go / main.go; argument decoders driven by "
                       "GenAmqpMethods.lean (re-translated from spec091.go, types.go, read.go, helpers.go by ksextract)",
                       "Amqp/Spec.lean: independent encoder and the reports the statement demands"] + LIB,
